@@ -43,6 +43,9 @@ pub struct MemberSpec {
     pub ctx: Context,
     pub rng_seed: u64,
     pub source: Source,
+    /// aggregated members only: the verifier's statement carries a seed in its public field
+    #[serde(default)]
+    pub owner_seed_on_aggregate: bool,
 }
 
 #[derive(Clone, Debug, Serialize, Deserialize)]
@@ -57,6 +60,14 @@ pub struct Scenario {
 pub struct C02;
 
 fn make_msg<G: Group>(sc: &Scenario, ms: &MemberSpec) -> Option<Msg<G>> {
+    let mut m = make_msg_inner::<G>(sc, ms)?;
+    if ms.owner_seed_on_aggregate && ms.m >= 2 {
+        m.force_seed = Some(scalar_from_seed("c02forced", ms.rng_seed, 0));
+    }
+    Some(m)
+}
+
+fn make_msg_inner<G: Group>(sc: &Scenario, ms: &MemberSpec) -> Option<Msg<G>> {
     let cfg = Config { bits: sc.bits, m: ms.m, cap: ms.cap, ext: sc.ext };
     let built = build::<G>(&cfg, &ms.wit);
     match &ms.source {
@@ -100,6 +111,7 @@ fn make_msg<G: Group>(sc: &Scenario, ms: &MemberSpec) -> Option<Msg<G>> {
                 seed: None,
                 ctx: ms.ctx.clone(),
                 proof: parts.to_bytes(),
+                force_seed: None,
             })
         },
     }
@@ -712,7 +724,7 @@ impl Check for C02 {
                 2..=5 => Source::Faulted { faults: gen_faults(rng, cfg.ext, m, c.rounds(), n_members == 1), fault_seed: rng.next_u64() },
                 _ => Source::Crafted { seed: rng.next_u64(), rounds_delta: *rng.pick(&[0i32, 0, 0, 0, 0, 1, -1]) },
             };
-            members.push(MemberSpec { m, cap, wit, ctx: Context::generate(rng), rng_seed: rng.next_u64(), source });
+            members.push(MemberSpec { m, cap, wit, ctx: Context::generate(rng), rng_seed: rng.next_u64(), source, owner_seed_on_aggregate: rng.chance(1, 3) });
             // duplicate delivery: the same proof and commitments again, right behind, under a
             // statement or context that differs
             if n_members > 1 && mi + 1 < n_members && rng.chance(1, 5) {
@@ -760,6 +772,9 @@ impl Check for C02 {
             }
             if m.m >= 8 {
                 st.probe("m_ge_8");
+            }
+            if m.m >= 2 && m.owner_seed_on_aggregate {
+                st.probe("aggregated_statement_carrying_a_seed");
             }
             if m.cap > m.m {
                 st.probe("capacity_gt_m");
@@ -871,7 +886,7 @@ impl Check for C02 {
             "shape_rejection_expected", "crafted_proof", "crafted_wrong_round_count", "m_ge_8", "capacity_gt_m",
             "nonzero_promise", "ext_1", "ext_2", "ext_3", "ext_4", "ext_5", "ext_6", "flip_bit", "replace_scalar",
             "replace_point", "drop_round", "add_round", "replace_commitment", "promise", "swap_commitments", "bits",
-            "generator_h", "generator_g", "retag_extension", "honest_member_followed_by_altered_duplicate",
+            "generator_h", "generator_g", "retag_extension", "honest_member_followed_by_altered_duplicate", "aggregated_statement_carrying_a_seed",
         ]
     }
 }
